@@ -635,9 +635,22 @@ func SpecMatch(pattern string, hasWild bool, s string) bool {
 
 // --- system reset re-fetch (C12, C03, C19) --------------------------------------------
 
-//@ func (*ResourceSubscription).processResetGetResponse
+//@ func (*ResourceSubscription).processResetCollection
 //@   trusted
 //@   requires rs != nil
+
+// processResetGetResponse: system.notFound becomes a delete event; any other error, and an
+// answer of the other resource type, changes nothing and reaches nobody; otherwise the diff
+// routine of the cached resource's type gets the re-fetched content.
+//@ func (*ResourceSubscription).processResetGetResponse
+//@   requires rs != nil && rs.e != nil && rs.e.cache != nil && (err != nil ==> reserr.predErrOK(err))
+//@   assumes (rs.state > stateRequested ==> predLoadedOK(rs)) && (forall sb Subscriber :: has(rs.subs, sb) ==> sb != nil)
+//@   assert[C12] rs.handleEvent#1: arg0.Event == "delete"
+//@   assert[C12] rs.processResetModel#1: rs.state == stateModel && arg0 != nil
+//@   assert[C12] rs.processResetCollection#1: rs.state == stateCollection && arg0 != nil
+//@   ensures[C12,C15] callcount("handleEvent") + callcount("processResetModel") + callcount("processResetCollection") <=
+//@       old(callcount("handleEvent") + callcount("processResetModel") + callcount("processResetCollection")) + 1
+//@   safety[C15]
 
 // handleResetResource: a resource that is already being re-fetched is left alone; otherwise it
 // is marked as resetting and exactly one get request for the resource, carrying the normalised
@@ -714,6 +727,17 @@ func SpecMatch(pattern string, hasWild bool, s string) bool {
 //@   assigns pkgstate(rescache), cachecontainers()
 //@   safety[C15]
 //@ closure (*Cache).Access#1
+//@   resolves[C07] callback exactly-once
+//@   safety[C15]
+
+//@ func (*Cache).CustomAuth
+//@   defers callback
+//@   requires c != nil && req != nil
+//@   assumes c.mq != nil
+//@   resolves[C07] callback exactly-once
+//@   assigns pkgstate(rescache), cachecontainers()
+//@   safety[C15]
+//@ closure (*Cache).CustomAuth#1
 //@   resolves[C07] callback exactly-once
 //@   safety[C15]
 
